@@ -182,8 +182,9 @@ CHECKS = [
           "Wall-clock use in the start/stop waits and the clock-based default seed are allow-listed with reasons.",
   "technique": "effect contracts: syntactic determinism-effect check over the call closure (ground obligations) + SMT lemma on id renumbering"},
  {"property_id": "C11",
-  "text": "Counter, tally and weighted-tally families (EventBasedCounter/Tally/WeightedTally, SimCounter/SimTally/SimWeightedTally): "
-          "register/initialize/notify/_fire_events and the constructors are verified against contracts over the C09 representation invariants and the C08 producer view: "
+  "text": "All four families (EventBasedCounter/Tally/WeightedTally/TimestampWeightedTally, SimCounter/SimTally/SimWeightedTally/"
+          "SimPersistent): register/initialize/notify/_fire_events (and end_observations on event-producing receivers) and the "
+          "constructors are verified against contracts over the C09 representation invariants and the C08 producer view: "
           "notify of a subscribed data event = exactly one register of the payload, WARMUP = initialize (n = 0, all earlier "
           "observations forgotten), any other event = nothing changes; every operation keeps the invariant, so the getters "
           "(C09 contracts) report the plain statistic of the observations since the last warm-up; lemma: [data, WARMUP, data] leaves "
@@ -192,11 +193,18 @@ CHECKS = [
           "under its key (DSOLModel.add/get_output_statistic contracts + lemma: retrievable). Published values: ground obligation "
           "over all seven _fire_events functions -- every payload expression is literally the documented query call, in the documented "
           "order -- plus proved _fire_events contracts (queries total under the invariant, statistic unchanged by publication). "
-          "Without listeners the event-based statistics change only their own accumulators (nohavoc obligations).",
+          "Without listeners the event-based statistics change only their own accumulators (nohavoc obligations). "
+          "SimPersistent.notify: a TIMESTAMP_DATA event is an observation at its own timestamp, an event of a subscribed type an "
+          "observation at the simulator clock, WARMUP re-opens and empties the statistic, END_REPLICATION closes it at the clock "
+          "(total weight = clock - first observation, last value weighted up to the clock: with the C10 getter contracts this is "
+          "the time average from the first observation after warm-up to the replication end); construction also subscribes to "
+          "END_REPLICATION. BOUNDED stand-in shared with C06: native sweep with absolute oracles (tally/counter = observations "
+          "at or after warm-up; persistent = time integral / average to the replication end) over generated models, non-zero "
+          "replication start times included.",
   "design_ref": "DESIGN.md section 6 C11 and Part II section 15",
-  "note": COMMON_NOTE + " NOT covered by proof (stated scope): EventBasedTimestampWeightedTally / SimPersistent notify and constructor "
-          "(end_observations at END_REPLICATION, time average to the replication end) -- only their _fire_events publication table "
-          "and the bounded sweep of C06 cover them; listen_to; that the simulator schedules the warm-up with maximum priority and fires END_REPLICATION after setting "
+  "note": COMMON_NOTE + " NOT covered by proof (stated scope): listen_to and construction with an initial producer; Quantity-valued "
+          "clocks / timestamps; rejection conditions of the timestamped notify are bounded from above (may_raise), only the "
+          "unchanged-on-rejection frame is proved; that the simulator schedules the warm-up with maximum priority and fires END_REPLICATION after setting "
           "the clock (C06/C04 territory). Assumed (CB-stat): listeners of a statistic's own events do not call that statistic's "
           "mutators from inside notify; producers keep PWF across callbacks (C08); Event/TimedEvent fields and the statistic's key/"
           "simulator are constructor-only (frame scan obligation).",
